@@ -103,5 +103,5 @@ func TimeSleep(d time.Duration) {
 		d = 0
 	}
 	clockRead(d)
-	Yield(YAtomic, 0)
+	YieldAway(YAtomic)
 }
